@@ -176,6 +176,9 @@ fn run_shard(
             }
         } else if status.code() == Some(3) {
             // the timeout record was written by the watchdog; continue after it
+        } else if status.code() == Some(2) {
+            // the worker itself failed (unreadable case file, ...): tool trouble, not an outcome
+            return Err(format!("worker error: {}", String::from_utf8_lossy(&child.stderr)));
         } else if next < to {
             let stderr = String::from_utf8_lossy(&child.stderr);
             let tail: String = stderr.chars().rev().take(300).collect::<Vec<_>>().into_iter().rev().collect();
